@@ -371,10 +371,12 @@ struct ArrTarget : Target {
                 const Shape sh = model[o].shape; size_t ne = prod(sh);
                 static const Shape menu[] = {{3}, {5}, {8}, {2, 3}, {3, 2}, {3, 4}, {2, 3, 2}, {1, 2, 3}, {2, 3, 4}};
                 bool offered = false; for (auto& m : menu) offered |= m == sh;
-                if (Tr::family == LEGACY_FIXED) offered = sh == Shape{2, 3, 2};
+                if (Tr::family == LEGACY_FIXED) offered = std::is_same_v<A, na::fixed_ndarray<E, 2, 3, 2>>;
                 if (!offered) { probe("assign_nested.shape_not_in_menu"); return false; }
                 E v[24]; { SimGuard g; for (size_t i = 0; i < ne; i++) v[i] = val(env->next_value()); }
-                if constexpr (Tr::family == LEGACY_FIXED) { Sut x; a = {{{v[0], v[1]}, {v[2], v[3]}, {v[4], v[5]}}, {{v[6], v[7]}, {v[8], v[9]}, {v[10], v[11]}}}; }
+                if constexpr (Tr::family == LEGACY_FIXED) {
+                    if constexpr (std::is_same_v<A, na::fixed_ndarray<E, 2, 3, 2>>) { Sut x; a = {{{v[0], v[1]}, {v[2], v[3]}, {v[4], v[5]}}, {{v[6], v[7]}, {v[8], v[9]}, {v[10], v[11]}}}; }
+                }
                 else if constexpr (Tr::family == LEGACY_HYBRID) assign_nested_rank<Tr::fixed_rank>(a, sh, v);
                 else { if (sh.size() == 1) assign_nested_rank<1>(a, sh, v); else if (sh.size() == 2) assign_nested_rank<2>(a, sh, v); else assign_nested_rank<3>(a, sh, v); }
                 for (size_t i = 0; i < ne; i++) model[o].val[i] = v[i];
@@ -396,10 +398,12 @@ struct ArrTarget : Target {
             else {
                 const Shape& sh = model[o].shape; size_t ne = prod(sh); if (ne == 0) return false;
                 std::vector<E> vals; { SimGuard g; for (size_t i = 0; i < ne; i++) vals.push_back(val(env->next_value())); }
-                if constexpr (Tr::family == LEGACY_FIXED) {
+                if constexpr (std::is_same_v<A, na::fixed_ndarray<E, 2, 3, 2>>) {
                     using src_t = na::ndarray_t<nmtools_array<E, 12>, nmtools_tuple<meta::ct<(size_t)2>, meta::ct<(size_t)3>, meta::ct<(size_t)2>>>;
                     Sut s; src_t tmp{}; for (size_t i = 0; i < ne; i++) { Shape idx = unravel(i, sh); tmp(idx[0], idx[1], idx[2]) = vals[i]; }
                     a = std::move(tmp);
+                } else if constexpr (Tr::family == LEGACY_FIXED) {   // the other fixed shapes: operator= wants a fixed-size source (static_assert); not offered
+                    probe("assign_foreign.not_offered"); return false;
                 } else {
                     using src_t = na::ndarray_t<std::vector<E>, std::vector<size_t>>;
                     Sut s; src_t tmp{}; tmp.resize(sh); E* p = nm::data(tmp); for (size_t i = 0; i < ne; i++) p[i] = vals[i];
